@@ -542,15 +542,27 @@ impl Property for C18 {
             Outcome::Abort(w) => return viol("C18.rejected", format!("run aborted by the simulator: {w}")),
             _ => {}
         }
-        if !r.obs.events.is_empty() {
-            let e = &r.obs.events[0];
+        // Calling the stdin factory reads nothing (the real one is std::io::stdin()); opening
+        // a *file* argument does touch the input (it can block or fail). Everything else -
+        // any read, any write - counts.
+        let touched: Vec<&crate::world::Event> = r
+            .obs
+            .events
+            .iter()
+            .filter(|e| !(e.chan == crate::world::Chan::Open && e.src == 0))
+            .collect();
+        if r.obs.events.len() > touched.len() {
+            ctx.stats.probe("stdin factory called before the rejection (tolerated: nothing was read)");
+        }
+        if !touched.is_empty() {
+            let e = touched[0];
             return viol(
                 "C18.no-io",
                 format!(
                     "invalid configuration ({kind}: {:?}) but I/O happened before it was rejected: first seam event {:?} (of {}), stdin opened {} times, stdout {}, stderr {}; result {}",
                     needs,
                     e.chan,
-                    r.obs.events.len(),
+                    touched.len(),
                     r.obs.opened,
                     show(&r.obs.stdout),
                     show(&r.obs.stderr),
